@@ -32,17 +32,18 @@ func TestMain(m *testing.M) {
 }
 
 type caseT struct {
-	Handlers      int
-	WithPub       []bool
-	Background    []int
-	GoChannel     bool
-	CloseTimeout  time.Duration
-	Callers       int
-	Point         string // none, decorator, received, dispatched, in-handler, publishing, before-settle, emit-in-close, watcher-race
-	HandlerDur    int    // 0 zero, 1 short, 2 timeout/2, 3 beyond timeout   (in-handler only; others 0/1)
-	ReleaseDelay  int    // 0 right away, 1 after 1 ms, 2 after timeout/3
-	SubjectOn     int
-	Noise         []uint8
+	Handlers     int
+	WithPub      []bool
+	Background   []int
+	GoChannel    bool
+	CloseTimeout time.Duration
+	Callers      int
+	Point        string // none, decorator, received, dispatched, in-handler, publishing, before-settle, emit-in-close, watcher-race
+	HandlerDur   int    // 0 zero, 1 short, 2 timeout/2, 3 beyond timeout   (in-handler only; others 0/1)
+	ReleaseDelay int    // 0 right away, 1 after 1 ms, 2 after timeout/3
+	SubjectOn    int
+	SlowDrain    bool // the subject's subscriber keeps its channel open until the in-flight message is settled
+	Noise        []uint8
 }
 
 func (c caseT) String() string { return fmt.Sprintf("%+v", plain(c)) }
@@ -85,17 +86,20 @@ func genCase(t *rapid.T) caseT {
 	if c.GoChannel && c.Point == "emit-in-close" {
 		c.Point = "in-handler"
 	}
+	if !c.GoChannel && c.Point == "in-handler" {
+		c.SlowDrain = rapid.Bool().Draw(t, "subscriberDrainsBeforeClosing")
+	}
 	c.Noise = rapid.SliceOfN(rapid.Uint8Range(0, 5), 0, 8).Draw(t, "noise")
 	return c
 }
 
 type msgState struct {
-	tag      string
-	msg      *message.Message
-	started  atomic.Bool
-	ended    atomic.Bool
-	emitted  atomic.Bool
-	subject  bool
+	tag     string
+	msg     *message.Message
+	started atomic.Bool
+	ended   atomic.Bool
+	emitted atomic.Bool
+	subject bool
 }
 
 type sample struct {
@@ -141,10 +145,10 @@ func (w *world) get(tag string) *msgState {
 }
 
 type closeRes struct {
-	err  error
-	snap map[string]sample
+	err       error
+	snap      map[string]sample
 	pubClosed []int
-	done chan struct{}
+	done      chan struct{}
 }
 
 func runCase(c caseT) (viol []string, held bool) {
@@ -209,6 +213,21 @@ func runCase(c caseT) (viol []string, held bool) {
 			sub = gc
 		} else {
 			subs[i] = lib.NewScriptSub("")
+			if c.SlowDrain && i == c.SubjectOn {
+				// a subscriber that closes its channel only after the message in flight was settled,
+				// whatever happens to the contexts (brokers that drain on Close behave like this)
+				subs[i].IgnoreCtx = true
+				subs[i].OnClose = func(int) {
+					lib.WaitUntil(5*time.Second, func() bool {
+						ms := w.get("subject")
+						if ms == nil || !ms.emitted.Load() {
+							return true
+						}
+						a, n := lib.Settled(ms.msg)
+						return a || n
+					})
+				}
+			}
 			sub = subs[i]
 		}
 		name, topic := fmt.Sprintf("h%d", i), fmt.Sprintf("t%d", i)
